@@ -174,6 +174,21 @@ class Translator:
         ab = self.ab
         if not (isinstance(node, ast.Name) and node.id in env):
             node = self._inline_locals(node, env)
+        if isinstance(node, ast.Call) and isinstance(node.func, ast.Lambda) \
+                and not node.keywords and \
+                len(node.args) == len(node.func.args.args) and \
+                not node.func.args.vararg and not node.func.args.kwarg:
+            # (lambda n: P(n))(x)  ==  P(x)
+            import copy
+            sub = {a.arg: v for a, v in zip(node.func.args.args, node.args)}
+
+            class S(ast.NodeTransformer):
+                def visit_Name(self, n):
+                    if isinstance(n.ctx, ast.Load) and n.id in sub:
+                        return sub[n.id]
+                    return n
+            return self.cond(S().visit(copy.deepcopy(node.func.body)), var,
+                             env, mod)
         if isinstance(node, ast.BoolOp):
             parts = [self.cond(v, var, env, mod) for v in node.values]
             cur = parts[0]
@@ -376,6 +391,33 @@ class Translator:
             if isinstance(s, ast.If):
                 self.if_stmt(s, fi, var, env, st, in_try, depth)
                 continue
+            if isinstance(s, ast.For) and not s.orelse:
+                # rules kept as a table: for check, text in TABLE: if
+                # check(n): raise ...   - the body once per row
+                it = s.iter
+                if isinstance(it, ast.Name) and it.id not in env:
+                    vals = mod.assigns.get(it.id)
+                    it = vals[0] if vals and len(vals) == 1 and \
+                        it.id not in mod.mutated else None
+                if isinstance(it, (ast.Tuple, ast.List)) and \
+                        len(it.elts) <= 32:
+                    for row in it.elts:
+                        env2 = dict(env)
+                        if isinstance(s.target, ast.Name):
+                            env2[s.target.id] = row
+                        elif isinstance(s.target, ast.Tuple) and \
+                                isinstance(row, (ast.Tuple, ast.List)) and \
+                                len(row.elts) == len(s.target.elts) and \
+                                all(isinstance(t, ast.Name)
+                                    for t in s.target.elts):
+                            for t, e in zip(s.target.elts, row.elts):
+                                env2[t.id] = e
+                        else:
+                            raise AnalysisError(
+                                'loop over a rule table outside the '
+                                'fragment in %s' % fi.qualname)
+                        self.block(s.body, fi, var, env2, st, in_try, depth)
+                    continue
             if isinstance(s, ast.Try):
                 handlers_ok = all(self.handler_converts(h) for h in
                                   s.handlers) and not s.finalbody
